@@ -6,6 +6,7 @@ Exit codes: 0 = property held on everything explored (only listed known findings
 """
 import argparse
 import base64
+import fnmatch
 import importlib
 import json
 import multiprocessing as mp
@@ -99,7 +100,7 @@ def run_shard(job: Dict[str, Any]) -> Dict[str, Any]:
     types = _types()
     argspec = [(n, types[t]) for n, t in shard['args']]
     signal.signal(signal.SIGALRM, _alarm)
-    signal.alarm(int(shard.get('budget_s', 60) * 3 + 120))
+    signal.alarm(int(shard.get('budget_s', 60) * 6 + 300))
     try:
       r = chx.explore(fn, shard.get('params', {}), argspec,
                       budget_s=shard.get('budget_s', 60), per_path_s=shard.get('per_path_s', 10),
@@ -176,6 +177,12 @@ def load_findings(prop: str):
   return known, fixed
 
 
+def _sig_match(sig: str, listed) -> bool:
+  """A listed signature names one failing call site; `*` stands for the parts of the signature that do not
+  belong to the defect (e.g. which index-shifting list operation ran inside notify_on_change(False))."""
+  return any(sig == k or ('*' in k and fnmatch.fnmatchcase(sig, k)) for k in listed)
+
+
 def replay_witness(w: Dict[str, Any]):
   payload = b64(dict(module=w['module'], fn=w['fn'], params=w.get('params', {}),
                      argsets=[unb64(w['args_b64'])]))
@@ -214,7 +221,9 @@ def main(argv=None) -> int:
     shards = [s for s in shards if a.only in s['name']]
   # size the tier by total wall time: shard budgets are scaled down if their sum exceeds the wall cap
   cap = float(os.environ.get('VERIF_WALL_S', '900' if a.tier == 'thorough' else '240'))
-  total = sum(s.get('budget_s', 60) for s in shards)
+  # (a shard that declares expect_s - the CPU time it needs to close - is sized by that; its budget_s is only the point
+  # where it is given up as INCOMPLETE, and it is not scaled unless the expected times themselves exceed the cap)
+  total = sum(s.get('expect_s', s.get('budget_s', 60)) for s in shards)
   allowed = cap * max(1, min(a.jobs, len(shards) or 1)) * 0.85
   if total > allowed:
     f = allowed / total
@@ -227,7 +236,7 @@ def main(argv=None) -> int:
   for k in known:
     if 'witness' in k:
       rsig, _ = replay_witness(k['witness'])
-      if rsig == k['sig']:
+      if _sig_match(rsig, [k['sig']]):
         print(f'KNOWN-FINDING: property={prop} [{k["sig"]}] {k["text"]}', flush=True)
       else:
         print(f'note: listed finding {k["sig"]} does not reproduce on this tree (replay: {rsig})', flush=True)
@@ -277,8 +286,13 @@ def main(argv=None) -> int:
       errors.append(f'shard {r["name"]} crashed: {r["error"][:800]}')
       continue
     if r.get('confirmed', 0) + r.get('violated', 0) == 0 and not r.get('allow_vacuous'):
-      errors.append(f'shard {r["name"]} is vacuous: no path reached the end of the harness '
-                    f'(paths={r.get("paths")}, ignored={r.get("ignored")}, unknown={r.get("unknown")})')
+      if r.get('closed') or a.tier == 'quick':
+        errors.append(f'shard {r["name"]} is vacuous: no path reached the end of the harness '
+                      f'(paths={r.get("paths")}, ignored={r.get("ignored")}, unknown={r.get("unknown")})')
+      else:
+        # an unfinished shard whose budget ran out before any path completed decides nothing (and is reported as
+        # incomplete); the reach-point guard below still requires every assertion site to be reached by some shard
+        print(f'note: shard {r["name"]} ran out of budget before completing a path (paths={r.get("paths")})', flush=True)
     for m in r.get('mismatches', []):
       errors.append(f'shard {r["name"]}: faithfulness mismatch: symbolic path held, concrete re-run gave '
                     f'{m["concrete"]} on {m["args"]} ({m["detail"]})')
@@ -288,7 +302,7 @@ def main(argv=None) -> int:
         errors.append(f'shard {r["name"]}: counterexample {v["sig"]} did not reproduce in a plain '
                       f'interpreter (replay: {rs} {v["replay_detail"]}) args={v["args_repr"]}')
         continue
-      if rs in known_sigs:
+      if _sig_match(rs, known_sigs):
         known_seen[rs] = known_seen.get(rs, 0) + 1
         continue
       new_violations.append(dict(shard=r['name'], fn=v.get('fn', r['fn']), params=v.get('params', r['params']),
